@@ -349,31 +349,38 @@ func runParseCfg(z *zone, pc *parseCfg, window []int64, rep reporter) (nontrivia
 				fmt.Sprintf("%s on %q returned %q after %d earlier evaluation(s) of the same compiled expression, but %q when compiled afresh and evaluated on this text only\n%s", pc.tmpl, e.text, got, n, fresh, where))
 		}
 		// (R) reference
-		if e.style.yy && (e.c.Y < 1969 || e.c.Y > 2068) {
-			continue // a two-digit year does not carry the century
-		}
-		explicit := pc.mode == modeNamed || pc.mode == modeCustom
-		if isErrorMarker(got) {
-			// "If the format is unable to be resolved, it must be specified manually": a detecting mode may
-			// give up; an explicit format must read the text written in exactly that format
-			if explicit && e.style.kind != offAbbr {
-				rep("C18/"+pc.helper+"/parse/"+cls+"/"+kind+"/error-marker", fmt.Sprintf("%s on %q (the instant written in that very format) returned %q\n%s", pc.tmpl, e.text, got, where))
-			}
-			continue
-		}
-		var ok bool
-		var want string
-		if pc.helper == "time" {
-			ok, want = refTime(z, pc, e.style, e.u, e.c, got)
-		} else {
-			ok, want = refBucket(z, pc, e.style, e.c, got)
-		}
-		if !ok {
-			rep("C18/"+pc.helper+"/parse/"+cls+"/"+kind+"/wrong-"+map[string]string{"time": "instant", "buckettime": "fields"}[pc.helper],
-				fmt.Sprintf("%s on %q returned %q, want %s\n%s", pc.tmpl, e.text, got, want, where))
-		}
+		judgeParsed(z, pc, e.style, e.u, e.c, e.text, got, where, rep)
 	}
 	return nontrivial, strings.Join(seen, ","), evals
+}
+
+// judgeParsed: oracle (R) on one answer of a parsing helper for the text of a
+// genuine instant (see refTime / refBucket for what is demanded).
+func judgeParsed(z *zone, pc *parseCfg, st *textStyle, u int64, c cal, text, got string, where fmt.Stringer, rep reporter) {
+	cls, kind := pc.mode, st.kind.String()
+	if st.yy && (c.Y < 1969 || c.Y > 2068) {
+		return // a two-digit year does not carry the century
+	}
+	explicit := pc.mode == modeNamed || pc.mode == modeCustom
+	if isErrorMarker(got) {
+		// "If the format is unable to be resolved, it must be specified manually": a detecting mode may
+		// give up; an explicit format must read the text written in exactly that format
+		if explicit && st.kind != offAbbr {
+			rep("C18/"+pc.helper+"/parse/"+cls+"/"+kind+"/error-marker", fmt.Sprintf("%s on %q (the instant written in that very format) returned %q\n%s", pc.tmpl, text, got, where))
+		}
+		return
+	}
+	var ok bool
+	var want string
+	if pc.helper == "time" {
+		ok, want = refTime(z, pc, st, u, c, got)
+	} else {
+		ok, want = refBucket(z, pc, st, c, got)
+	}
+	if !ok {
+		rep("C18/"+pc.helper+"/parse/"+cls+"/"+kind+"/wrong-"+map[string]string{"time": "instant", "buckettime": "fields"}[pc.helper],
+			fmt.Sprintf("%s on %q returned %q, want %s\n%s", pc.tmpl, text, got, want, where))
+	}
 }
 
 // lazy: a detail string that is only built when it is printed.
